@@ -1,5 +1,6 @@
 import Mathlib.Tactic
 import Sentinel.Lemmas.WarmUp
+import Sentinel.Lemmas.WarmUpHist
 /-!
 # C11 — adaptive thresholds stay inside their configured envelope
 
@@ -623,5 +624,151 @@ theorem adaptive_throttle_class (m : MemCfg) (total : ℤ) (hv : m.valid total =
       push_cast at this
       linarith
     simp [h2]
+
+/-! ## history level: the executed `req` over the shared leap array (`Sentinel.LA`), tied to the decision log through
+the C08 reference theorems (`getSum_eq_ref`, `prevSum_eq_ref`); `Lemmas/WarmUpHist.lean`
+
+`runLog s [] rq` runs the requests `rq = [(time, batch), …]` through `req` and returns the decision log
+`(time, batch, admitted)`; `runLog_decisions` says these are the decisions of `run`. `passIn log lo hi` = admitted tokens whose
+500 ms bucket start lies in `[lo, hi]`. All statements: fresh resource, rule loaded at `t0 ≥ 1000` ms, default 1 s view. -/
+open Sentinel.WU.H
+
+/-- the log speaks about the same decisions as `run` -/
+theorem log_is_run (s : Sys ℚ) (rq : List (ℕ × ℕ)) : (runLog s [] rq).2.map (fun e => e.2.2) = run s rq := by
+  simpa using runLog_decisions rq s []
+
+/-- **"the admitted rate never exceeds the configured threshold", at history level**: for every non-degenerate warm-up rule and
+    every history (any batch sizes, any instants), every window of two consecutive 500 ms buckets — in particular every aligned
+    second `[1000k, 1000k+1000)` — holds at most `T`, hence at most `⌊T⌋`, admitted tokens -/
+theorem admitted_le_threshold_every_window (T : ℚ) (p cf0 t0 : ℕ) (hnd : Known.degenerateNaN (mkCfg T p cf0) = false)
+    (h0 : 1000 ≤ t0) (rq : List (ℕ × ℕ)) (hm : MonoT t0 rq) (w : ℕ) :
+    (passIn (runLog (loadWarmUp ({} : Sys ℚ) t0 T p cf0 2 1000) [] rq).2 w (w + 500) : ℚ) ≤ T ∧
+    passIn (runLog (loadWarmUp ({} : Sys ℚ) t0 T p cf0 2 1000) [] rq).2 w (w + 500) ≤ ⌊T⌋₊ := by
+  have hwf := mkCfg_wf T p cf0 hnd
+  have h := winv_run hwf t0 rq _ [] t0 (hinv_load T p cf0 t0 h0)
+    (fun w => by simpa [passIn] using le_of_lt hwf.Tpos) hm w
+  exact ⟨h, Nat.le_floor h⟩
+
+/-- in the `warmup-nan` region the same window is unbounded (`nan_unlimited_witness`: 50 of 50) — the clause is false there -/
+example : Known.degenerateNaN (mkCfg (1 : ℚ) 1 3) = true := by
+  have hf : ¬ Known.degenerateNaN (mkCfg (1 : ℚ) 1 3) = false := by
+    rw [nondegenerate_iff]; rintro ⟨_, h⟩; rw [cfg_1_1_3.1, cfg_1_1_3.2] at h; omega
+  simpa using hf
+
+/-- **not starved, at history level** (`T ≥ coldFactor`, non-degenerate): in every history, every refused single-token request
+    was preceded by an admitted request less than 1000 ms earlier -/
+theorem not_starved_history (T : ℚ) (p cf0 t0 : ℕ) (hnd : Known.degenerateNaN (mkCfg T p cf0) = false)
+    (hT : ((effCf cf0 : ℕ) : ℚ) ≤ T) (h0 : 1000 ≤ t0) (rq : List (ℕ × ℕ)) (hm : MonoT t0 rq) :
+    RecentAdm (runLog (loadWarmUp ({} : Sys ℚ) t0 T p cf0 2 1000) [] rq).2 :=
+  recent_run (mkCfg_wf T p cf0 hnd) hT t0 rq _ [] t0 (hinv_load T p cf0 t0 h0)
+    (fun i hi => by simp at hi) hm
+
+/-- finite form: a single-token request with no admission during the preceding 1000 ms is admitted — so when requests keep arriving
+    at least once per second, any two consecutive seconds contain an admission (`N = 2`) -/
+theorem not_starved_within_two_seconds (T : ℚ) (p cf0 t0 : ℕ) (hnd : Known.degenerateNaN (mkCfg T p cf0) = false)
+    (hT : ((effCf cf0 : ℕ) : ℚ) ≤ T) (h0 : 1000 ≤ t0) (rq : List (ℕ × ℕ)) (hm : MonoT t0 rq)
+    (i : ℕ) (hi : i < (runLog (loadWarmUp ({} : Sys ℚ) t0 T p cf0 2 1000) [] rq).2.length)
+    (h1 : ((runLog (loadWarmUp ({} : Sys ℚ) t0 T p cf0 2 1000) [] rq).2[i]).2.1 = 1)
+    (hquiet : ∀ j, ∀ (hj : j < i), ((runLog (loadWarmUp ({} : Sys ℚ) t0 T p cf0 2 1000) [] rq).2[j]'(by omega)).2.2 = true →
+      ((runLog (loadWarmUp ({} : Sys ℚ) t0 T p cf0 2 1000) [] rq).2[j]'(by omega)).1 + 1000 ≤
+        ((runLog (loadWarmUp ({} : Sys ℚ) t0 T p cf0 2 1000) [] rq).2[i]).1) :
+    ((runLog (loadWarmUp ({} : Sys ℚ) t0 T p cf0 2 1000) [] rq).2[i]).2.2 = true := by
+  by_contra hne
+  have hf : ((runLog (loadWarmUp ({} : Sys ℚ) t0 T p cf0 2 1000) [] rq).2[i]).2.2 = false := by
+    simpa using hne
+  obtain ⟨j, hj, k1, k2⟩ := not_starved_history T p cf0 t0 hnd hT h0 rq hm i hi h1 hf
+  have := hquiet j hj k1
+  omega
+
+/-- **sustained demand drains the bucket, on the executed model** (the bridge from the leap-array reads to
+    `reaches_full_threshold_partial`): non-degenerate rule with `T ≥ coldFactor` — i.e. outside `warmup-nan` and `warmup-starvation`;
+    `warmup-stuck-at-warning` does not bite under demand, `warmup-late-ramp` is the very bound proved here —, loaded at a second
+    boundary `1000·k0`; every second `i` brings more than `T` single-token requests (`⌈T⌉+1` suffice) at arbitrary non-decreasing
+    millisecond offsets **within the first half-second bucket** of the second (`SatDemand`). Then the previous-window pass count seen
+    by `syncToken` at each second is the number admitted in the previous second, which is `≥ 1` and `≥ ⌊⌊T⌋/cf⌋` (`J.sat`), the bucket
+    drains by exactly that amount (`tok_step`), and within `maxToken − warningToken + 1` seconds the stored tokens are at or below the
+    warning line, i.e. the threshold in force is the full `T`.  The restriction to first-half offsets is necessary:
+    `phase_stall_witness` / `replays/known/C11-warmup-phase-stall.ops` -/
+theorem saturating_demand_drains (T : ℚ) (p cf0 k0 : ℕ) (hnd : Known.degenerateNaN (mkCfg T p cf0) = false)
+    (hT : ((effCf cf0 : ℕ) : ℚ) ≤ T) (hk0 : 1 ≤ k0) (dem : ℕ → List ℕ) (hd : SatDemand (mkCfg T p cf0) dem) :
+    ∃ n, 1 ≤ n ∧ n ≤ (mkCfg T p cf0).max - (mkCfg T p cf0).warn + 1 ∧
+      allowed (mkCfg T p cf0)
+        (secRun dem k0 n (loadWarmUp ({} : Sys ℚ) (1000 * k0) T p cf0 2 1000, [])).1.tok.tokens = some T := by
+  obtain ⟨n, h1, h2, h3⟩ := drains_history (mkCfg_wf T p cf0 hnd) hT (1000 * k0) k0 dem hd _ (j_load T p cf0 k0 hk0)
+  exact ⟨n, h1, h2, warm_eq_T T p cf0 hnd _ h3⟩
+
+/-- the statement asked for — offsets anywhere in the second — is **false** on the pinned code (`warmup-phase-stall`), so it is kept
+    as a `def`: sustained demand at arbitrary millisecond offsets -/
+def saturating_demand_drains_any_offset_statement : Prop :=
+  ∀ (T : ℚ) (p cf0 k0 : ℕ), Known.degenerateNaN (mkCfg T p cf0) = false → ((effCf cf0 : ℕ) : ℚ) ≤ T → 1 ≤ k0 →
+  ∀ dem : ℕ → List ℕ, (∀ i, T < ((dem i).length : ℚ)) → (∀ i, ∀ o ∈ dem i, o < 1000) → (∀ i, (dem i).Pairwise (· ≤ ·)) →
+  ∃ n, 1 ≤ n ∧ n ≤ (mkCfg T p cf0).max - (mkCfg T p cf0).warn + 1 ∧
+    allowed (mkCfg T p cf0)
+      (secRun dem k0 n (loadWarmUp ({} : Sys ℚ) (1000 * k0) T p cf0 2 1000, [])).1.tok.tokens = some T
+
+/-! ## `warmup-phase-stall`: sustained demand whose phase alternates between the half-second buckets never warms the rule up -/
+
+theorem cfg_10_10_3 : (mkCfg (10 : ℚ) 10 3).warn = 50 ∧ (mkCfg (10 : ℚ) 10 3).max = 100 := by
+  simp only [mkCfg, effCf, c_ofNat]
+  rw [trunc_eq 50 (by norm_num) (by norm_num) (by norm_num), trunc_eq 50 (by norm_num) (by norm_num) (by norm_num)]
+  exact ⟨rfl, rfl⟩
+
+/-- `warmup-phase-stall` witness (`T = 10`, period 10 s, cold factor 3; token level): when the previous-window counts seen by
+    `syncToken` alternate between the cold admission `3` and `0` — which is what a demand of 15 requests per second produces when it
+    arrives in the second half of odd seconds and the first half of even seconds (replay on the real code) — the bucket oscillates
+    between 100 and 97 tokens for ever: every idle-looking sync refills what the previous one drained, and the threshold never
+    reaches the configured 10 -/
+theorem phase_stall_witness (n : ℕ) :
+    (drainSeq (mkCfg (10 : ℚ) 10 3) ⟨100, 9000⟩ (fun j => (10000 + 1000 * j, if j % 2 = 0 then 3 else 0)) n =
+      ⟨if n % 2 = 0 then 100 else 97, 9000 + 1000 * n⟩) ∧
+    allowed (mkCfg (10 : ℚ) 10 3)
+      (drainSeq (mkCfg (10 : ℚ) 10 3) ⟨100, 9000⟩ (fun j => (10000 + 1000 * j, if j % 2 = 0 then 3 else 0)) n).tokens ≠ some 10 := by
+  have hnd : Known.degenerateNaN (mkCfg (10 : ℚ) 10 3) = false := by
+    rw [nondegenerate_iff, cfg_10_10_3.1, cfg_10_10_3.2]; norm_num
+  have hwf := mkCfg_wf 10 10 3 hnd
+  have hT : (mkCfg (10 : ℚ) 10 3).T = 10 := rfl
+  have hcf : (mkCfg (10 : ℚ) 10 3).cf = 3 := rfl
+  have hw := cfg_10_10_3.1
+  have hm := cfg_10_10_3.2
+  have htr : (Carrier.trunc (mkCfg (10 : ℚ) 10 3).T).toNat / (mkCfg (10 : ℚ) 10 3).cf ≤ 3 := by
+    rw [hT, hcf, trunc_eq 10 (by norm_num) (by norm_num) (by norm_num)]; decide
+  have key : ∀ n, drainSeq (mkCfg (10 : ℚ) 10 3) ⟨100, 9000⟩ (fun j => (10000 + 1000 * j, if j % 2 = 0 then 3 else 0)) n =
+      ⟨if n % 2 = 0 then 100 else 97, 9000 + 1000 * n⟩ := by
+    intro n
+    induction n with
+    | zero => rfl
+    | succ n ih =>
+      simp only [drainSeq]
+      rw [ih]
+      have hsec : 10000 + 1000 * n - (10000 + 1000 * n) % 1000 = 10000 + 1000 * n := by omega
+      by_cases hpar : n % 2 = 0
+      · have h1 : (n + 1) % 2 ≠ 0 := by omega
+        rw [if_pos hpar, if_pos hpar, if_neg h1]
+        apply tok_eq
+        · rw [sync_drains _ _ _ 3 (by rw [hsec]; show 9000 + 1000 * n < _; omega)
+            (by rw [hw]; norm_num) (by rw [hm]; norm_num) htr]
+          norm_num
+        · rw [sync_lastFilled _ _ _ _ (by rw [hsec]; show 9000 + 1000 * n < _; omega), hsec]; ring
+      · have h1 : (n + 1) % 2 = 0 := by omega
+        rw [if_neg hpar, if_neg hpar, if_pos h1]
+        apply tok_eq
+        · have := sync_idle_refills hwf (by rw [hT, hcf]; norm_num) ⟨97, 9000 + 1000 * n⟩ (by norm_num)
+            (by rw [hw]; norm_num) (10000 + 1000 * n) (by rw [hsec]; show 9000 + 1000 * n < _; omega)
+            (by
+              rw [hm, hT, hsec]
+              have : 10000 + 1000 * n - (9000 + 1000 * n) = 1000 := by omega
+              show ((100 : ℕ) : ℚ) - ((97 : ℤ) : ℚ) ≤ ((10000 + 1000 * n - (9000 + 1000 * n) : ℕ) : ℚ) * 10 / 1000
+              rw [this]; norm_num)
+          simp only [Nat.cast_zero] at this ⊢
+          rw [this, hm]; rfl
+        · rw [sync_lastFilled _ _ _ _ (by rw [hsec]; show 9000 + 1000 * n < _; omega), hsec]; ring
+  refine ⟨key n, ?_⟩
+  rw [key n, allowed_closed_form hwf]
+  unfold val
+  simp only [hw, hm, hT, hcf]
+  by_cases hpar : n % 2 = 0
+  · rw [if_pos hpar]; norm_num
+  · rw [if_neg hpar]; norm_num
+
 
 end Sentinel.C11
